@@ -142,6 +142,61 @@ example :
     (add { root := some 1, att := [⟨1, [], 0, true⟩, ⟨2, [1], 1, false⟩, ⟨3, [1], 1, false⟩], lastIter := 3 }
       [⟨5, [2], 1, false⟩]).mode = .rebuild := by decide
 
+/-! ### confluence of `add` on the attached set
+
+`addSeq t L` feeds the batches `L` one after another through `add`.  `CausalFor t l`: every previous id and the
+snapshot of each element of `l` is attached in `t` or is the id of an earlier element of `l`. -/
+
+/-- **add_confluent_causal**: two deliveries of the same changes - any batching, any duplication, any two orders
+that respect causality - end with the same attached set (a permutation of the same attachment list) and hence
+present the same sequence.  (Ids are unique: `huniq`, content hashes.) -/
+theorem add_confluent_causal (t : T) (L1 L2 : List (List Change)) (r : Nat)
+    (hun : t.unatt = []) (hroot : t.root = some r) (hnd : (t.att.map (·.id)).Nodup)
+    (huniq : ∀ c ∈ t.att ++ L1.flatten ++ L2.flatten, ∀ d ∈ t.att ++ L1.flatten ++ L2.flatten, c.id = d.id → c = d)
+    (h1 : CausalFor t L1.flatten) (h2 : CausalFor t L2.flatten)
+    (hsame : ∀ c, c ∈ L1.flatten ↔ c ∈ L2.flatten) :
+    (addSeq t L1).att.Perm (addSeq t L2).att ∧ iter r (addSeq t L1).att = iter r (addSeq t L2).att :=
+  addSeq_confluent t L1 L2 hun r hroot hnd huniq h1 h2 hsame
+
+/-- … and a causal delivery attaches everything it delivers, directly (the wait list is never needed). -/
+theorem add_causal_attaches_all (t : T) (L : List (List Change)) (hun : t.unatt = []) (hroot : t.root.isSome = true)
+    (h : CausalFor t L.flatten) : ∀ c ∈ L.flatten, (addSeq t L).has c.id = true :=
+  (addSeq_causal L t hun hroot h).2.2.2.1
+
+/-- confluence at full strength: ANY two deliveries (arbitrary order, so the wait list is exercised) of the same
+closed, honest set of changes - some causal order of it exists, and the snapshot of a change is attached
+whenever all its previous ids are (it is one of their ancestors) - end with the same attached set. -/
+def C06_add_confluent_full : Prop :=
+  ∀ (t : T) (L0 L1 L2 : List (List Change)) (r : Nat),
+    t.unatt = [] → t.root = some r → WFAtt t.att →
+    (∀ c ∈ t.att ++ L0.flatten, ∀ d ∈ t.att ++ L0.flatten, c.id = d.id → c = d) →
+    CausalFor t L0.flatten →
+    (∀ c ∈ L0.flatten, ∀ S : Nat → Prop, (∀ x, t.has x = true → S x) →
+        (∀ d ∈ L0.flatten, S d.id → ∀ p ∈ d.prevs, S p) → (∀ p ∈ c.prevs, S p) → S c.snap) →
+    (∀ c, c ∈ L1.flatten ↔ c ∈ L0.flatten) → (∀ c, c ∈ L2.flatten ↔ c ∈ L0.flatten) →
+    (∀ c ∈ L0.flatten, (addSeq t L1).has c.id = true) ∧ (addSeq t L1).att.Perm (addSeq t L2).att
+
+/-- **add_confluent_partial**: the full statement restricted to deliveries that are themselves causally ordered.
+Named gap `waitlist_complete`: that a change parked in `unAttached` is attached by the wait-list cascade as soon
+as its last missing previous id arrives is not proved in Lean; the harness checks it on the real code
+(`treelevel.det.*`: same set in ascending / descending / random order; `cross.*`, `settle` in the histories) and
+compares the model's wait list with the real one step by step (`treelevel.add`). -/
+theorem add_confluent_partial (t : T) (L1 L2 : List (List Change)) (r : Nat)
+    (hun : t.unatt = []) (hroot : t.root = some r) (hwf : WFAtt t.att)
+    (huniq : ∀ c ∈ t.att ++ L1.flatten ++ L2.flatten, ∀ d ∈ t.att ++ L1.flatten ++ L2.flatten, c.id = d.id → c = d)
+    (h1 : CausalFor t L1.flatten) (h2 : CausalFor t L2.flatten)
+    (hsame : ∀ c, c ∈ L1.flatten ↔ c ∈ L2.flatten) :
+    (∀ c ∈ L1.flatten, (addSeq t L1).has c.id = true) ∧ (addSeq t L1).att.Perm (addSeq t L2).att :=
+  ⟨add_causal_attaches_all t L1 hun (by simp [hroot]) h1,
+   (addSeq_confluent t L1 L2 hun r hroot (hwf.split t.att [] (by simp)).2.1 huniq h1 h2 hsame).1⟩
+
+/-- non-vacuity: the diamond delivered as `[2],[3,4]` and as `[3],[2],[4,4]` -/
+example :
+    let t : T := { root := some 1, att := [⟨1, [], 0, true⟩], lastIter := 1 }
+    iter 1 (addSeq t [[⟨2, [1], 1, false⟩], [⟨3, [1], 1, false⟩, ⟨4, [2, 3], 1, false⟩]]).att = [1, 2, 3, 4] ∧
+    iter 1 (addSeq t [[⟨3, [1], 1, false⟩], [⟨2, [1], 1, false⟩], [⟨4, [2, 3], 1, false⟩, ⟨4, [2, 3], 1, false⟩]]).att
+      = [1, 2, 3, 4] := by decide
+
 /-! ### stored order and reduced views
 
 `storeInsert` places a change that lacks an order id right after its predecessor in the iteration. -/
